@@ -46,6 +46,7 @@ func Run(c *run.Ctx) {
 		one(c, cs)
 		return
 	}
+	arrivals(c)
 	idx := 0
 	for _, p := range pins {
 		if c.Mine(idx) {
@@ -77,6 +78,10 @@ func one(c *run.Ctx, cs Case) {
 		dir = filepath.Join(d, "inputs") // replay aid: keep the generated inputs
 	} else {
 		defer os.RemoveAll(dir)
+	}
+	if cs.Kind == "arrival" {
+		runArrival(c, genArrival(run.NewRand(cs.Seed, "C03", c.Shard, "arrival", cs.Index)), cs.Index)
+		return
 	}
 	if cs.Kind == "pin" {
 		for i := range pins {
